@@ -8,7 +8,7 @@ from vp.props.common import multiset_eq, quiet
 
 PROP = 'C10'
 META = dict(
-    explanation='Each sequence operator is run (real code) on N symbolic items, each an arbitrary integer or None, per key under with_memory_store and on a plain observable where it supports one, '
+    explanation='Each sequence operator is run (real code) on N symbolic items, each an arbitrary integer or None, per key under with_memory_store (root key, and for the stateful ones under group_by with two solver-interleaved keys) and on a plain observable where it supports one, '
                 'and the emitted list is compared with the list definition of the property statement, written directly on Python lists: first/last/take(n); distinct = first occurrences; '
                 'distinct_until_changed = heads of runs (with and without key_mapper); lag(n) = (items[max(0,i-n)], items[i]); pad_start / pad_end / start_with padding around a non-empty sequence; '
                 'batch(n) = chunks of exactly n plus one non-empty remainder, concatenation = input; sort = stable ordered permutation. One obligation per operator x mode x length x parameter value.',
@@ -71,6 +71,9 @@ def seqop(p):
     pre = ['0 <= v%d <= 2' % i for i in range(n)] if op == 'distinct' else []
     fac, oracle, _, _ = OPS[op]
 
+    if mode == 'group':
+        return _seqop_group(p, typ, pre, fac, oracle)
+
     def body(a):
         items = list(a)
         ops = fac(arg)
@@ -81,6 +84,34 @@ def seqop(p):
             return True
         return fail(op=op, arg=arg, mode=mode, items=items, observed=got, expected=exp)
     return mk('seq_' + op, sig, pre, body)
+
+
+def _seqop_group(p, typ, pre, fac, oracle):
+    """the operator under group_by with two interleaved keys (solver-chosen per item): each group's outputs against the list definition on that group's items"""
+    op, n, arg = p['op'], p['n'], p.get('arg')
+    sig = []
+    for i in range(n):
+        sig += [('k%d' % i, 'bool'), ('v%d' % i, typ)]
+
+    def body(a):
+        keys = [(1 if a[2 * i] else 0) for i in range(n)]
+        vals = [a[2 * i + 1] for i in range(n)]
+        log = []
+        inner = [rs.ops.map(lambda i: i[1])] + fac(arg) + [D.tap(log, (lambda x: list(x)) if op == 'batch' else None)]
+        err = []
+        D.src(list(zip(keys, vals))).pipe(rs.state.with_memory_store([rs.ops.group_by(lambda i: i[0], inner)])).subscribe(on_error=lambda e: err.append(repr(e)))
+        order = []
+        for k in keys:
+            if k not in order:
+                order.append(k)
+        for gi, k in enumerate(order):
+            its = [v for kk, v in zip(keys, vals) if kk == k]
+            got = [e[2] for e in log if e[0] == 'n' and e[1] == gi]
+            exp = oracle(its, arg)
+            if got != exp or err:
+                return fail(op=op, arg=arg, mode='group_by, 2 interleaved keys', items=list(zip(keys, vals)), group=k, group_items=its, observed=got, expected=exp, err=err)
+        return True
+    return mk('seq_group_' + op, sig, pre, body)
 
 
 def sort(p):
@@ -144,6 +175,12 @@ def obligations(tier, seed):
                 add('pad_end', n, 'mux', [size, val])
         add('start_with', n, 'mux', [5, 6])
         add('start_with', n, 'mux', [])
+    ng = 4 if q else 5
+    for op, arg in (('first', None), ('last', None), ('take', 1), ('take', 2), ('distinct', None), ('duc', None), ('lag', 1), ('lag', 2), ('lag', 3), ('pad_start', [1, None]), ('pad_end', [2, None]),
+                    ('pad_end', [1, 7]), ('start_with', [5, 6]), ('batch', 2), ('batch', 3)):
+        for n in ((3, ng) if op != 'distinct' else (3,)):
+            obs.append(Ob(PROP, 'seqop', dict(op=op, n=n, mode='group', arg=arg, opt=False), budget=b, group='seqop_group:' + op,
+                          bound=dict(items=n, groups=2, values='ints' if op != 'distinct' else 'ints 0..2', arg=arg, mode='group_by')))
     for n in range(0, (3 if q else 4) + 1):
         obs.append(Ob(PROP, 'sort', dict(n=n), budget=b, bound=dict(items=n, keys='0..2')))
         if n >= 2:
